@@ -111,7 +111,9 @@ def run(run, replay=None):
     # arbitrary delay: the clock (hook) jumps between the response and the confirmation while other clients convert
     import os
     nowf = os.path.join(wd, "now")
-    for pause in ([1, 3_600_000, 3_600_001, 86_400_000, 259_200_000] if thorough else [3_600_001, 86_400_000]):
+    # (the pauses include one LONGER than the three-day expiry: the count of a word confirmed now is fresh whatever the age of the
+    # conversion that offered it, and it must not take the other learned counts with it)
+    for pause in ([1, 3_600_000, 3_600_001, 86_400_000, 259_200_000, 259_200_001, 400_000_000] if thorough else [3_600_001, 86_400_000, 260_000_000]):
         open(nowf, "w").write("1000")
         srv = S.Server(bindir, dic, None, workers=4, now_file=nowf)
         try:
